@@ -193,7 +193,7 @@ def decrypt(sc, m: Material, tok):
         kw["registry"] = jwe.JWERegistry(algorithms=names, strict_check_header=False)
     try:
         if sc["w"]["ser"] == "compact":
-            o = jwe.decrypt_compact(tok, key, **kw)
+            o = jwe.decrypt_compact(J.F(tok), key, **kw)
         else:
             o = jwe.decrypt_json(tok, key, **kw)
         return "ok", o.plaintext
